@@ -72,9 +72,13 @@ var canRenameFileBetweenDirs = func(srcDir, dstDir string) (bool, error) {
 	}
 	dstFile, err := os.CreateTemp(dstDir, "")
 	if err != nil {
+		// Don't leave the first temp file behind in the workspace.
+		os.Remove(srcFile.Name())
 		return false, err
 	}
 	if err := dstFile.Close(); err != nil {
+		os.Remove(srcFile.Name())
+		os.Remove(dstFile.Name())
 		return false, err
 	}
 
